@@ -1,6 +1,7 @@
 package v2
 
 import (
+	"sync"
 	"context"
 	"encoding/binary"
 	"encoding/json"
@@ -80,11 +81,15 @@ func suffOf(lx *big.Int) int {
 	return s
 }
 
-func mineChild(data []byte, target uint64, workers int, prior interface{}) M {
+func mineChild(data []byte, target uint64, workers int, prior interface{}, conc ...interface{}) M {
 	if prior == nil {
 		prior = []interface{}{}
 	}
-	spec, _ := json.Marshal(M{"data": vInts(data), "target": vLimbsU64(target), "workers": workers, "prior": prior})
+	sp := M{"data": vInts(data), "target": vLimbsU64(target), "workers": workers, "prior": prior}
+	if len(conc) > 0 && conc[0] != nil {
+		sp["conc"] = conc[0]
+	}
+	spec, _ := json.Marshal(sp)
 	cmd := exec.Command(os.Args[0], "-test.run", "^TestVerifChild$", "-test.count=1")
 	cmd.Env = append(os.Environ(), "VERIF_CHILD_IN="+string(spec))
 	done := make(chan struct{})
@@ -133,7 +138,39 @@ func TestVerifChild(t *testing.T) {
 			w.Mine(context.Background(), vBytes(x), target)
 		}
 	}
+	// other Mine calls on the SAME Worker (other data, same target score) may run at the same time
+	stop := make(chan struct{})
+	var bg sync.WaitGroup
+	if cc, ok := spec["conc"].([]interface{}); ok && len(cc) > 0 {
+		for _, x := range cc {
+			other := vBytes(x)
+			bg.Add(1)
+			go func() {
+				defer bg.Done()
+				for {
+					select {
+					case <-stop:
+						return
+					default:
+						w.Mine(context.Background(), other, target)
+					}
+				}
+			}()
+		}
+	}
 	nonce, err := w.Mine(context.Background(), data, target)
+	if spec["conc"] != nil { // repeat while the others are busy; the first call that misses the target is the one reported
+		for rep := 0; rep < 40 && err == nil; rep++ {
+			var nb [8]byte
+			binary.LittleEndian.PutUint64(nb[:], nonce)
+			if Score(append(append([]byte{}, data...), nb[:]...)) < target {
+				break
+			}
+			nonce, err = w.Mine(context.Background(), data, target)
+		}
+	}
+	close(stop)
+	bg.Wait()
 	out := M{"ok": err == nil, "err": fmt.Sprint(err), "nonce": nonce8(nonce), "panic": ""}
 	b, _ := json.Marshal(out)
 	fmt.Println("VERIF-CHILD-RESULT " + string(b))
@@ -193,7 +230,7 @@ func runF(op string, in M) (M, M, M) {
 		data := vBytes(in["data"])
 		target := vFromLimbs(in["target"]).Uint64()
 		workers := vIntOf(in["workers"])
-		out := mineChild(data, target, workers, in["prior"])
+		out := mineChild(data, target, workers, in["prior"], in["conc"])
 		f := digestFacts(data)
 		f["blocks"], f["audit"] = []M{}, []M{}
 		if out["ok"] == true && workers == 1 && target > 0 {
@@ -360,6 +397,12 @@ func TestVerifDriver(t *testing.T) {
 			mineIn["prior"] = [][]int{vInts(make([]byte, len(data)/4)), vInts(make([]byte, 3*len(data)+40))}
 		}
 		emit("pow2.Mine", mineIn)
+		if k%4 == 1 { // the same Worker mines other data at the same time
+			o1, o2 := make([]byte, len(data)), make([]byte, len(data)+3)
+			r.Read(o1)
+			r.Read(o2)
+			emit("pow2.Mine", M{"data": vInts(data), "target": mineIn["target"], "workers": 2 + r.Intn(3), "conc": [][]int{vInts(o1), vInts(o2)}})
+		}
 		if k%9 == 0 {
 			emit("pow2.Mine", M{"data": vInts(data), "target": []int{}, "workers": 1})
 		}
